@@ -89,7 +89,7 @@ def inv_get_group_ids(c):
             ("ids-is-union-of-visited", z3.ForAll([x], ids.has(x) == z3.Exists([j], z3.And(0 <= j, j < c.i, p.Gids(nm(j), x)))))]
 
 
-LOOPSPECS[(P_B + "get_group_ids", 1)] = LoopSpec(inv_get_group_ids, ("C10",), name="collect")
+LOOPSPECS[(P_B + "get_group_ids", 1)] = LoopSpec(inv_get_group_ids, ("C10",), name="collect", sig="group_names")
 
 
 @unit(P_B + "get_group_ids", ("C10",), [P_B + "get_group_ids", "group_register.TaskGroupRegister.__iter__"])
@@ -135,7 +135,7 @@ def inv_cancel_group_meta(c):
                                            c.st.sh["_enough_room"].v.same(c.st0.sh["_enough_room"].v)))]
 
 
-LOOPSPECS[(P_B + "_cancel_group_meta_tasks", 1)] = LoopSpec(inv_cancel_group_meta, ("C07",), name="cancel-metas")
+LOOPSPECS[(P_B + "_cancel_group_meta_tasks", 1)] = LoopSpec(inv_cancel_group_meta, ("C07",), name="cancel-metas", sig="meta_tasks")
 
 
 def sem_only_waiters_shrunk(s0, s1):
@@ -156,7 +156,7 @@ def inv_cancel_and_remove(c):
             ("waiters-only-shrink", sem_only_waiters_shrunk(c.st0.sh, c.st.sh))]
 
 
-LOOPSPECS[(P_B + "_cancel_and_remove_all_from_group", 1)] = LoopSpec(inv_cancel_and_remove, ("C07",), name="cancel-members")
+LOOPSPECS[(P_B + "_cancel_and_remove_all_from_group", 1)] = LoopSpec(inv_cancel_and_remove, ("C07",), name="cancel-members", sig="group_reg")
 
 
 def cancel_and_remove_post(st0: St, s: St, g, ids0: SetV):
@@ -269,7 +269,7 @@ def inv_cancel_all(c):
             ("waiters-only-shrink", sem_only_waiters_shrunk(c.st0.sh, c.st.sh))]
 
 
-LOOPSPECS[(P_B + "cancel_all", 1)] = LoopSpec(inv_cancel_all, ("C07",), name="each-group")
+LOOPSPECS[(P_B + "cancel_all", 1)] = LoopSpec(inv_cancel_all, ("C07",), name="each-group", sig="self._task_groups")
 
 
 @unit(P_B + "cancel_all", ("C07",), [P_B + "cancel_all", P_B + "_get_cancel_kw"])
@@ -306,7 +306,7 @@ def inv_stop(c):
             ("not-beyond-num", z3.Or(c.i == 0, c.i <= num))]
 
 
-LOOPSPECS[(P_S + "stop", 1)] = LoopSpec(inv_stop, ("C14",), name="pick-newest")
+LOOPSPECS[(P_S + "stop", 1)] = LoopSpec(inv_stop, ("C14",), name="pick-newest", sig="enumerate(reversed(self._tasks_running))")
 
 
 def c_cancel_for_stop(ip: Interp, st: St, fr, selfv, args):
@@ -518,7 +518,7 @@ def inv_generate_group_name(c):
     return [("all-smaller-indices-taken", z3.And(i >= 0, z3.ForAll([k], z3.Implies(z3.And(0 <= k, k < i), p.G.has(sym.str_concat([base, "-", StrV(sym.itos(k))]).t)))))]
 
 
-LOOPSPECS[(P_T + "_generate_group_name", 1)] = LoopSpec(inv_generate_group_name, ("C10",), name="first-free-index")
+LOOPSPECS[(P_T + "_generate_group_name", 1)] = LoopSpec(inv_generate_group_name, ("C10",), name="first-free-index", sig="True")
 
 
 def spawn_events(s: St):
@@ -856,7 +856,7 @@ class ConsumerTheory(PoolTheory):
         from pyvc.theory import LoopCtx, havoc_like
 
         ip = self.ip
-        spec = ip.loopspecs[(fr.qual, ordinal)]
+        spec = self.find_loopspec(fr, node, ordinal)
         lname = spec.name
         st0 = st.fork()
         mod_locals = sorted(set(self.assigned_names(node.body + [node.target])) | {n for n in st.loc if n.startswith("$")})
@@ -912,7 +912,7 @@ def inv_arg_consumer(c):
             ("my-semaphore", z3.Select(st.sh["msem"].t, me) == st.sh["$msem"].ident)]
 
 
-LOOPSPECS[(P_T + "_arg_consumer", 1)] = LoopSpec(inv_arg_consumer, ("C05",), name="consume")
+LOOPSPECS[(P_T + "_arg_consumer", 1)] = LoopSpec(inv_arg_consumer, ("C05",), name="consume", sig="enumerate(arg_iter)")
 
 
 def u_arg_consumer(ip: Interp, th: ConsumerTheory):
@@ -1091,9 +1091,9 @@ def inv_pop_delete(c):
         z3.Implies(p1.M.has(h), z3.Select(p1.M.cols[0], h) == z3.Select(p0.M.cols[0], h)))))]
 
 
-LOOPSPECS[(P_B + "_pop_ended_meta_tasks", 1)] = LoopSpec(inv_pop_outer, ("C07", "C08"), name="each-group")
-LOOPSPECS[(P_B + "_pop_ended_meta_tasks", 2)] = LoopSpec(inv_pop_inner, ("C07", "C08"), name="drain-group")
-LOOPSPECS[(P_B + "_pop_ended_meta_tasks", 3)] = LoopSpec(inv_pop_delete, ("C07", "C08"), name="drop-empty")
+LOOPSPECS[(P_B + "_pop_ended_meta_tasks", 1)] = LoopSpec(inv_pop_outer, ("C07", "C08"), name="each-group", sig="self._group_meta_tasks_running")
+LOOPSPECS[(P_B + "_pop_ended_meta_tasks", 2)] = LoopSpec(inv_pop_inner, ("C07", "C08"), name="drain-group", sig="self._group_meta_tasks_running[group_name]")
+LOOPSPECS[(P_B + "_pop_ended_meta_tasks", 3)] = LoopSpec(inv_pop_delete, ("C07", "C08"), name="drop-empty", sig="obsolete_keys")
 
 
 @unit(P_B + "_pop_ended_meta_tasks", ("C07", "C08"), [P_B + "_pop_ended_meta_tasks"])
